@@ -22,25 +22,39 @@ Spec == Init /\ [][Next]_pvars
 GenSpec == Init /\ [][UNCHANGED pvars]_pvars
 
 INear   == LawPlaceNear(ref, ts)
+IDoc    == LawPlaceDoc(ref, ts)
+ITie    == LawPlaceTie(ref, ts)
 IVsRef  == LawPlaceVsRef(ref, ts)
 IOrder  == \A y \in Val : LawPlaceOrder(ref, ts, y)
 IShift  == \A n \in {0, 1, H - 1, H, M - 1, M, M + 1} : LawPlaceShift(ref, ts, n)
 IImpl   == ImplPlaceMatches(ref, ts)
 \* one era later the placed time is one era later (action property on Later)
-PLater == [][(ref' = ref + M /\ PlaceDefined(ref, ts))
-                => Place(ref', ts') = Place(ref, ts) + M]_pvars
+\* (ties included: the tie of era e + 1 is the tie of era e, one era later)
+PLater == [][(ref' = ref + M /\ ts' = ts)
+                => /\ Place(ref', ts') = Place(ref, ts) + M
+                   /\ PlaceDefined(ref', ts') <=> PlaceDefined(ref, ts)]_pvars
 
 \* vacuity guards: the unconstrained situations do occur in the explored space
 \* (evaluated once): a half-distance pair and a placement before the epoch
 IVacuity == (ref = 0 /\ ts = 0) =>
                /\ \E r \in 0 .. ERAS * M - 1, t \in Val : ~PlaceDefined(r, t)
+               \* constrained ties with the serial numerically below and above the
+               \* reference's serial, in every era but the first half of era 0,
+               \* where the tie would lie before the epoch
+               /\ \A e \in 1 .. ERAS - 1 :
+                     /\ \E r \in e * M .. (e + 1) * M - 1, t \in Val :
+                           ~PlaceDefined(r, t) /\ t < r % M /\ PlaceConstrained(r, t)
+                     /\ \E r \in e * M .. (e + 1) * M - 1, t \in Val :
+                           ~PlaceDefined(r, t) /\ t > r % M /\ PlaceConstrained(r, t)
+               /\ \E r \in H .. M - 1, t \in Val : ~PlaceDefined(r, t) /\ PlaceConstrained(r, t)
+               /\ \A r \in 0 .. H - 1, t \in Val : ~PlaceDefined(r, t) => ~PlaceConstrained(r, t)
                /\ \E r \in 0 .. ERAS * M - 1, t \in Val : PlaceDefined(r, t) /\ Place(r, t) < 0
                /\ \E r \in 0 .. ERAS * M - 1, t \in Val : Place(r, t) \div M > r \div M
                /\ \E r \in 0 .. ERAS * M - 1, t \in Val : Place(r, t) >= 0 /\ Place(r, t) \div M < r \div M
 
 EmitPlace == PrintT("CASE " \o ToJson(
    [in  |-> [kind |-> "place", k |-> BITS, ref |-> ref, ts |-> ts,
-             free |-> ~PlaceConstrained(ref, ts)],
+             free |-> ~PlaceConstrained(ref, ts), tie |-> ~PlaceDefined(ref, ts)],
     exp |-> IF PlaceConstrained(ref, ts)
             THEN [s \in SitesOf(Sites, "place") |-> [t |-> Place(ref, ts)]]
             ELSE [s \in SitesOf(Sites, "place") |-> "any"]]))
